@@ -315,9 +315,22 @@ def run(chk):
 
 
 META = {
-    'text': 'Offset algebra over every function that writes start/length/text of a span object.',
-    'note': 'draft',
-    'technique': 'intra-procedural symbolic offset algebra (linear normal forms), dataflow on the normalisation pipeline',
+    'text': 'Offset algebra (linear normal forms, path-enumerating, no solver) over every function that writes '
+            'start/length/text/end of a span object (about 60 functions): for every object that reaches the function\'s '
+            'results the triple must be coherent at each escape point by one of the enumerated idioms (copy, slice '
+            'S[start:start+length], match group, affix growth, shrink, text restored relative to the callee\'s source, '
+            'deferred repair loop); ModelResult construction must be start = X.start, end = X.start + X.length - 1, '
+            'text = X.text for one X. Plus a length-effect analysis of the normalisation pipeline: only length-preserving '
+            'transformers between a Model.parse query and the extractor, and no offsets taken in a case-folded copy. '
+            'These are necessary conditions of C01 visible in the shape of the code; an off-by-one or a dropped '
+            'adjustment in any of these sites changes a normal form and is reported with both forms.',
+    'note': 'Not decided: that the regex positions are where the entity is (input-dependent), 0 <= start <= end < len '
+            'beyond what coherence implies, correctness of spans handed over by callees (the parser contract '
+            '"ParseResult copies start/length of its source" is assumed), objects classified internal (they do not reach '
+            'the function results by the syntactic flow criterion: parameters, returned names, appended elements). '
+            'Three unprovable sites are exempt by a reviewed table (EXEMPT in c01.py); functions whose path budget is '
+            'exceeded are listed as observations. Known finding: BaseNumberParser.parse (negative merged numbers).',
+    'technique': 'intra-procedural symbolic offset algebra (linear normal forms) + length-effect dataflow of the normalisation pipeline',
 }
 
 
